@@ -128,3 +128,11 @@ def has_own(obj, name):
 def pending_getters(q):
     """consumers still registered on an asyncio.Queue (a Queue.get() that was started and neither finished nor cancelled)"""
     return len([g for g in getattr(q, "_getters", ()) if not g.done()])
+
+
+def hexbytes(s):
+    """bytes.fromhex(s), total at specification level"""
+    try:
+        return bytes.fromhex(s)
+    except ValueError:
+        return b""
